@@ -73,6 +73,7 @@ def _numeric_predicates(m, seed):
     out.append(("at_rest_general_accel_is_reaction_to_gravity", wa <= 2e-5, "max deviation %.3g m/s^2" % wa))
     # the three forms describe the same motion; integration reproduces the trajectory - both with errors that shrink with the interval
     orders_forms, orders_int, worst = [], [], 0.0
+    dtraj = []
     for k in range(4):
         lla0 = [float(rng.uniform(-60, 60)), float(rng.uniform(-170, 170)), float(rng.uniform(0, 3000))]
         v0 = (rng.randn(3) * [3.0, 3.0, 0.3]).tolist(); amp = (rng.rand(3) * [1.5, 1.5, 0.2]).tolist()
@@ -90,6 +91,12 @@ def _numeric_predicates(m, seed):
             trB, imuB = sim.generate_imu(t, trC[['lat', 'lon', 'alt']].values, rph)            # position only
             d = max(np.abs(imuA.values - imuC.values)[5:-5].max(), np.abs(imuB.values - imuC.values)[5:-5].max())
             dform.append(float(d))
+            # ... and the RETURNED trajectories describe the same motion too (the position-only form derives the velocity it returns:
+            # seeded change C03_4 returned +d(alt)/dt as the DOWN velocity while the readings stayed right)
+            for nm, trX in (("position+velocity", trA), ("position only", trB)):
+                dv_ = float(np.abs(trX[['VN', 'VE', 'VD']].values - trC[['VN', 'VE', 'VD']].values)[5:-5].max())
+                dr_ = float(np.abs(trX[['roll', 'pitch', 'heading']].values - trC[['roll', 'pitch', 'heading']].values)[5:-5].max())
+                dtraj.append((dv_, dr_, nm))
             inc = SD.compute_increments_from_imu(imuC, 'rate')
             it = SD.Integrator(trC.iloc[0])
             it.integrate(inc)
@@ -103,6 +110,9 @@ def _numeric_predicates(m, seed):
         out.append(("case_%d" % k, True, "forms differ by %.3g / %.3g, integration misses by %.3g / %.3g m at dt = 0.1 / 0.05" % (dform[0], dform[1], dint[0], dint[1])))
     out.append(("three_forms_same_motion", all(orders_forms) and worst <= 1e-3,
                 "difference does not grow beyond the round-off floor (1e-4) when the interval is halved: %s; largest reading difference %.3g at dt = 0.1" % (orders_forms, worst)))
+    wv = max(x[0] for x in dtraj); wr = max(x[1] for x in dtraj)
+    out.append(("three_forms_return_the_same_trajectory", wv <= 2e-3 and wr <= 1e-6,
+                "largest difference of the returned velocities %.3g m/s (bound 2e-3), of the returned attitude angles %.3g deg, between the input forms" % (wv, wr)))
     out.append(("integration_reproduces_trajectory_error_shrinks", (not orders_int or min(orders_int) >= 1), "measured orders %s" % (orders_int,)))
     # increment-type readings are the integrals of the rate-type readings: a body turning at a constant rate at rest is represented by the
     # splines without interpolation error, so the only deviation is the truncation of the closed-form integral, which is of THIRD order in
